@@ -173,6 +173,28 @@ def binding_case(args):
                                               "p1 = f.partial(%s=...); p1.partial(...) (discarded); p1(rest) hashes to %s, expected %s"
                                               % (first, h[:12], want_hash[:12]), art))
                     return out
+        # a reference keeps a snapshot of its arguments: changing a list / dict afterwards, in the caller's hands, changes
+        # neither the key nor the arguments that will be recorded
+        if not out["violations"]:
+            import copy
+
+            mine = {p: copy.deepcopy(v) if isinstance(v, (list, dict)) else v for p, v in binding.items()}
+            if any(isinstance(v, (list, dict)) for v in mine.values()):
+                pos = [p for p in params if p not in kwonly]
+                fra = f.fn_reference().with_args(*[mine[p] for p in pos], **{p: mine[p] for p in params if p in kwonly})
+                h0 = fra.arg_hash
+                for v in mine.values():
+                    if isinstance(v, list):
+                        v.append("added-later")
+                    elif isinstance(v, dict):
+                        v["added-later"] = 1
+                h1 = models.ref_arg_hash(dict(fra.effective_kwargs), None, fn_info)
+                out["evaluations"] += 1
+                out["transitions"] += 1
+                if h0 != want_hash or h1 != want_hash:
+                    out["violations"].append(("%s|arguments-aliased-to-caller|%s" % (fname, _vclass(binding_names)),
+                                              "after the caller changed its list / dict, the arguments held by the reference hash to %s (key %s, documented %s)"
+                                              % (h1[:12], h0[:12], want_hash[:12]), art))
         bodies = audit.bodies()
         if len(hashes) != 1:
             out["violations"].append(("%s|presentations-disagree" % fname, "presentations of %s give %d hashes" % (binding_names, len(hashes)), art))
